@@ -50,7 +50,7 @@ CLAIMED["C07"] = ("§3 C07",
 
 CLAIMED["C10"] = ("§3 C10",
     "type-resolved who-may-produce-JSON-strings rule on the appendJSON path, CFG gates (IsConcrete, json.Valid, StringLabelNeedsQuoting), kind-case exhaustiveness, SetEscapeHTML-before-Encode ordering, no map iteration on the output path",
-    "Decides that string values and object keys become JSON text only through internal/encoding/json.Marshal (no HTML-escaping json.Marshal, no Go-syntax quoting), that every json.Encoder on the path sets EscapeHTML before Encode, that Value.appendJSON handles every concrete kind and rejects non-concrete values first, that the decoders return an expression only after json.Valid/Decode and the parser succeeded, that output iteration is index-wise, that the importer unquotes a key only when StringLabelNeedsQuoting is false, that the text of a number is appended only across an edge on which its Form was tested to be apd.Finite, and that no error is discarded in the literal parser cue/literal (every JSON number and string passes through it) outside five reviewed sites. The two defects these last rules found — Infinity/NaN marshalled with a nil error; exponents beyond apd's range silently dropped, so 1e100001 decoded as 1 — were repaired in /repo (fix: 1414251, deb83fd). It does not decide number spelling or escaping correctness in general.",
+    "Decides that string values and object keys become JSON text only through internal/encoding/json.Marshal (no HTML-escaping json.Marshal, no Go-syntax quoting), that every json.Encoder on the path sets EscapeHTML before Encode, that Value.appendJSON handles every concrete kind and rejects non-concrete values first, that the decoders return an expression only after json.Valid/Decode and the parser succeeded, that output iteration is index-wise, that the importer unquotes a key only when StringLabelNeedsQuoting is false, that the text of a number is appended only across an edge on which its Form was tested to be apd.Finite, and that no error is discarded in the literal parser cue/literal (every JSON number and string passes through it) outside five reviewed sites. The two defects these last rules found — Infinity/NaN marshalled with a nil error; exponents beyond apd's range silently dropped, so 1e100001 decoded as 1 — were repaired in /repo (fix: 1414251, deb83fd). Every parser.ParseExpr call of the JSON decoders receives its bytes through a helper that escapes U+FEFF, the one rune the CUE scanner rejects inside strings and JSON allows (defect repaired, fix: 8e6bb9c). It does not decide number spelling or escaping correctness in general.",
     "encoding/json.Encoder and apd number formatting are trusted")
 
 CLAIMED["C12"] = ("§3 C12",
